@@ -36,3 +36,19 @@ Example C20_nonvacuous :
   = Some (HObj 4 1 [(0, HList 5 [HAtom 7]); (1, HList 2 [HAtom 8]); (2, HList 6 []); (3, HDict 7 [(HAtom 9, HList 3 [])])],
           [4; 5; 6; 7], 8).
 Proof. reflexivity. Qed.
+
+
+(* "repeating a call with equal arguments gives equal results": executing a plan on the same argument from any two
+   allocation counters - at any two moments of the program - fails both times or gives results equal as values; they differ
+   only in the identities of the containers built (`HeapDeterm.erase` forgets identities) *)
+From AV Require Proofs.HeapDeterm.
+Theorem C20_repeated_call_gives_equal_result : forall p v n m r1 b1 n1,
+  exec p v n = Some (r1, b1, n1) ->
+  exists r2 b2 m1, exec p v m = Some (r2, b2, m1) /\ HeapDeterm.erase r2 = HeapDeterm.erase r1.
+Proof. exact HeapDeterm.repeated_call_gives_equal_result. Qed.
+Print Assumptions C20_repeated_call_gives_equal_result.
+
+Theorem C20_failure_does_not_depend_on_the_moment : forall p v n m,
+  HeapDeterm.eres (exec p v n) = HeapDeterm.eres (exec p v m).
+Proof. exact HeapDeterm.exec_determ. Qed.
+Print Assumptions C20_failure_does_not_depend_on_the_moment.
